@@ -780,3 +780,139 @@ def gen_stop(g):
 
 
 PROFILES['stop'] = gen_stop
+
+
+# ---------------------------------------------------------------------------
+# C17 / C18: recorded variables, snapshot, export
+
+OUT_UNITS = {
+    'angular_position_unit': 'AngularPosition',
+    'angular_speed_unit': 'AngularSpeed',
+    'angular_acceleration_unit': 'AngularAcceleration',
+    'torque_unit': 'Torque', 'driving_torque_unit': 'Torque',
+    'load_torque_unit': 'Torque', 'force_unit': 'Force',
+    'stress_unit': 'Stress', 'current_unit': 'Current',
+}
+
+
+def out_units(g, export=False):
+    r = g.rng
+    kw = {}
+    for key, kind in OUT_UNITS.items():
+        if g.chance(0.5):
+            kw[key] = r.choice(si.units_of(kind))
+    if export and g.chance(0.5):
+        kw['time_unit'] = r.choice(si.units_of('Time'))
+    return kw
+
+
+def advertised(e, mate=None):
+    """variables an element of this spec advertises (by documentation);
+    mate: the worm gear a worm wheel is mated with."""
+    base = ['angular position', 'angular speed', 'angular acceleration',
+            'torque', 'driving torque', 'load torque']
+    k = e['kind']
+    if k == 'DCMotor':
+        if e.get('i0') is not None and e.get('imax') is not None:
+            base.append('electric current')
+        base.append('pwm')
+    elif k == 'WormGear':
+        if e.get('d') is not None:
+            base.append('tangential force')
+    elif k in rm.GEAR_KINDS:
+        if e.get('m') is not None:
+            base.append('tangential force')
+            if e.get('b') is not None and not (
+                    k == 'WormWheel' and mate is not None and
+                    mate.get('d') is None):
+                base.append('bending stress')
+                if e.get('E') is not None and k != 'WormWheel':
+                    base.append('contact stress')
+    return base
+
+
+def gen_query(g, profile='query'):
+    r = g.rng
+    scn, model, chain = base_scenario(
+        g, profile, n_target=r.choice([2, 3, 4, 5, 6, 8, 10]),
+        force_worm=True if g.chance(0.45) else None,
+        data_level=r.choice([None, None, None, 2, 0]))
+    k = rm.rate_constant(model, chain)[0]
+    scn['load'] = gen_load(g, model, chain)
+    scn['init'] = gen_init(g, model, chain)
+    g.cfg = dict(g.cfg)
+    g.cfg['steps'] = g.cfg.get('steps', (2, 25))
+    sched = [gen_run(g, k)]
+    if g.chance(0.4):
+        sched.append(gen_run(g, k))
+    if profile == 'tv':
+        c = r.random()
+        if c < 0.35:
+            sched.append({'op': 'reset', 'reapply': g.chance(0.6)})
+            if g.chance(0.8):
+                sched.append(gen_run(g, k, solver=r.choice(['same', 'new'])))
+    scn['schedule'] = sched
+    add_control(g, scn, model, chain, p=0.4)
+    if g.chance(0.3):
+        add_stops(g, scn, model, chain, p=1.0)
+    total_T = sum(run_T_si(op) for op in sched if op['op'] == 'run')
+    last_T = 0.0
+    for op in sched:
+        if op['op'] == 'reset':
+            last_T = 0.0
+        elif op['op'] == 'run':
+            last_T += run_T_si(op)
+    valid = []
+    for i, e in enumerate(scn['elements']):
+        mate = None
+        if e['kind'] == 'WormWheel' and model.mate[i] is not None:
+            mate = scn['elements'][model.mate[i]]
+        for v in advertised(e, mate):
+            if v not in valid:
+                valid.append(v)
+    if sched[-1]['op'] == 'reset':
+        return scn
+    n_snap = r.choice([1, 2, 3]) if profile == 'query' else 1
+    for _ in range(n_snap):
+        c = r.random()
+        if c < 0.4:
+            at = [r.random(), 0, r.choice(si.units_of('Time'))]
+        elif c < 0.5:
+            at = [0.0, 0, 'sec']
+        else:
+            at = [r.random(), round(r.uniform(0.02, 0.98), 3),
+                  r.choice(si.units_of('Time'))]
+        op = {'op': 'snapshot', 'at': at, 'units': out_units(g)}
+        c = r.random()
+        if c < 0.25:
+            op['vars'] = None
+        elif c < 0.6:
+            op['vars'] = [r.choice(valid)]
+        elif c < 0.8:
+            op['vars'] = r.sample(valid, min(2, len(valid)))
+        else:
+            op['vars'] = [v for v in valid if g.chance(0.5)] or [valid[0]]
+        if op['vars'] and g.chance(0.3):
+            r.shuffle(op['vars'])
+        sched.append(op)
+    n_exp = r.choice([1, 1, 2]) if profile == 'query' else 1
+    for _ in range(n_exp):
+        op = {'op': 'export', 'units': out_units(g, export=True),
+              'fault': None}
+        if profile == 'query' and g.chance(0.4):
+            kind = r.choice(['write_error', 'write_error', 'open_error',
+                             'makedirs_error', 'close_error'])
+            op['fault'] = {'kind': kind,
+                           'errno': r.choice(['ENOSPC', 'EIO', 'EACCES']),
+                           'file': r.randrange(0, len(scn['elements'])),
+                           'at_byte': r.choice([0, 1, 50, 100, 400, 1000, 5000])}
+        sched.append(op)
+    return scn
+
+
+def gen_tv(g):
+    return gen_query(g, 'tv')
+
+
+PROFILES['query'] = gen_query
+PROFILES['tv'] = gen_tv
